@@ -89,7 +89,7 @@ func (a *RegistrationRequest) EncodeRegistrationRequest(buffer *bytes.Buffer) {
 	}
 	if a.LastVisitedRegisteredTAI != nil {
 		binary.Write(buffer, binary.BigEndian, a.LastVisitedRegisteredTAI.GetIei())
-		binary.Write(buffer, binary.BigEndian, &a.LastVisitedRegisteredTAI.Octet)
+		binary.Write(buffer, binary.BigEndian, a.LastVisitedRegisteredTAI.Octet[:6])
 	}
 	if a.S1UENetworkCapability != nil {
 		binary.Write(buffer, binary.BigEndian, a.S1UENetworkCapability.GetIei())
@@ -205,7 +205,7 @@ func (a *RegistrationRequest) DecodeRegistrationRequest(byteArray *[]byte) {
 			binary.Read(buffer, binary.BigEndian, a.RequestedNSSAI.Buffer[:a.RequestedNSSAI.GetLen()])
 		case RegistrationRequestLastVisitedRegisteredTAIType:
 			a.LastVisitedRegisteredTAI = nasType.NewLastVisitedRegisteredTAI(ieiN)
-			binary.Read(buffer, binary.BigEndian, &a.LastVisitedRegisteredTAI.Octet)
+			binary.Read(buffer, binary.BigEndian, a.LastVisitedRegisteredTAI.Octet[:6])
 		case RegistrationRequestS1UENetworkCapabilityType:
 			a.S1UENetworkCapability = nasType.NewS1UENetworkCapability(ieiN)
 			binary.Read(buffer, binary.BigEndian, &a.S1UENetworkCapability.Len)
